@@ -144,34 +144,34 @@ func flipOp(op token.Token) token.Token {
 // repaired by repairAfterLazy; conversions that the caller guards). Confirmed by reading.
 var bitmapReturnGrowOnly = map[string]string{
 	"(*roaring.bitmapContainer).iremoveReturnMinimized": "named exception: a single removal crosses the threshold exactly, tested with cardinality == 4096",
-	"(*roaring.bitmapContainer).iaddReturnMinimized": "adds one value to a bitmap container",
-	"(*roaring.arrayContainer).iaddReturnMinimized":  "adds a value that is not present to an array of >= 4096 values: 4097 afterwards",
-	"(*roaring.bitmapContainer).iaddRange":           "adds a range to a bitmap container",
-	"(*roaring.bitmapContainer).ior":                 "in-place union: cardinality cannot decrease",
-	"(*roaring.bitmapContainer).iorArray":            "in-place union",
-	"(*roaring.bitmapContainer).iorBitmap":           "in-place union",
-	"(*roaring.bitmapContainer).iorRun16":            "in-place union",
-	"(*roaring.bitmapContainer).lazyIOR":             "lazy union: cardinality repaired by repairAfterLazy",
-	"(*roaring.bitmapContainer).lazyIORArray":        "lazy union",
-	"(*roaring.bitmapContainer).lazyIORBitmap":       "lazy union",
-	"(*roaring.bitmapContainer).lazyOR":              "lazy union of a bitmap container with anything: superset of a set with > 4096 values",
-	"(*roaring.bitmapContainer).lazyORArray":         "lazy union",
-	"(*roaring.bitmapContainer).lazyORBitmap":        "lazy union",
-	"(*roaring.bitmapContainer).or":                  "union with a bitmap container (> 4096 values)",
-	"(*roaring.bitmapContainer).orArray":             "union with a bitmap container",
-	"(*roaring.bitmapContainer).orBitmap":            "union with a bitmap container",
-	"(*roaring.bitmapContainer).clone":               "copy of a valid bitmap container",
-	"(*roaring.bitmapContainer).toEfficientContainer": "returns the receiver only when it is the cheapest form",
-	"(*roaring.arrayContainer).lazyIOR":              "lazy union: repaired by repairAfterLazy",
-	"(*roaring.arrayContainer).lazyorArray":          "lazy union: repaired by repairAfterLazy",
-	"(*roaring.arrayContainer).lazyIorArray":         "lazy union: repaired by repairAfterLazy",
-	"(*roaring.arrayContainer).lazyIorBitmap":        "lazy union with a bitmap container",
-	"(*roaring.arrayContainer).lazyIorRun16":         "lazy union",
-	"(*roaring.arrayContainer).lazyOR":               "lazy union: repaired by repairAfterLazy",
-	"(*roaring.arrayContainer).iorBitmap":            "union with a bitmap container",
-	"(*roaring.arrayContainer).orBitmap":             "union with a bitmap container",
-	"(*roaring.runContainer16).lazyIOR":              "lazy union: repaired by repairAfterLazy",
-	"(*roaring.runContainer16).lazyOR":               "lazy union: repaired by repairAfterLazy",
+	"(*roaring.bitmapContainer).iaddReturnMinimized":    "adds one value to a bitmap container",
+	"(*roaring.arrayContainer).iaddReturnMinimized":     "adds a value that is not present to an array of >= 4096 values: 4097 afterwards",
+	"(*roaring.bitmapContainer).iaddRange":              "adds a range to a bitmap container",
+	"(*roaring.bitmapContainer).ior":                    "in-place union: cardinality cannot decrease",
+	"(*roaring.bitmapContainer).iorArray":               "in-place union",
+	"(*roaring.bitmapContainer).iorBitmap":              "in-place union",
+	"(*roaring.bitmapContainer).iorRun16":               "in-place union",
+	"(*roaring.bitmapContainer).lazyIOR":                "lazy union: cardinality repaired by repairAfterLazy",
+	"(*roaring.bitmapContainer).lazyIORArray":           "lazy union",
+	"(*roaring.bitmapContainer).lazyIORBitmap":          "lazy union",
+	"(*roaring.bitmapContainer).lazyOR":                 "lazy union of a bitmap container with anything: superset of a set with > 4096 values",
+	"(*roaring.bitmapContainer).lazyORArray":            "lazy union",
+	"(*roaring.bitmapContainer).lazyORBitmap":           "lazy union",
+	"(*roaring.bitmapContainer).or":                     "union with a bitmap container (> 4096 values)",
+	"(*roaring.bitmapContainer).orArray":                "union with a bitmap container",
+	"(*roaring.bitmapContainer).orBitmap":               "union with a bitmap container",
+	"(*roaring.bitmapContainer).clone":                  "copy of a valid bitmap container",
+	"(*roaring.bitmapContainer).toEfficientContainer":   "returns the receiver only when it is the cheapest form",
+	"(*roaring.arrayContainer).lazyIOR":                 "lazy union: repaired by repairAfterLazy",
+	"(*roaring.arrayContainer).lazyorArray":             "lazy union: repaired by repairAfterLazy",
+	"(*roaring.arrayContainer).lazyIorArray":            "lazy union: repaired by repairAfterLazy",
+	"(*roaring.arrayContainer).lazyIorBitmap":           "lazy union with a bitmap container",
+	"(*roaring.arrayContainer).lazyIorRun16":            "lazy union",
+	"(*roaring.arrayContainer).lazyOR":                  "lazy union: repaired by repairAfterLazy",
+	"(*roaring.arrayContainer).iorBitmap":               "union with a bitmap container",
+	"(*roaring.arrayContainer).orBitmap":                "union with a bitmap container",
+	"(*roaring.runContainer16).lazyIOR":                 "lazy union: repaired by repairAfterLazy",
+	"(*roaring.runContainer16).lazyOR":                  "lazy union: repaired by repairAfterLazy",
 }
 
 func ruleF8Bitmap(p *Prog) *RuleResult {
